@@ -9,11 +9,14 @@ Good == [ok |-> TRUE, clause |-> "", exp |-> 0]
 Verdict(r) ==
     IF r.k = "text" THEN
         LET o == r.o  p == Parse(r.key, r.val)      \* parse what the real writer produced
-        IN  IF r.key # Key(o) THEN Bad("out.key", Key(o))
+        \* what C06 promises comes first: a value the text form can carry is read back as itself.
+        \* The exact text the writer chooses and the parser's behaviour on it are then compared
+        \* with the specification as growth (reported as drift, not as a violation).
+        IN  IF Representable(o) /\ ~(r.parsed.ok /\ r.parsed.o = o) THEN Bad("out.roundtrip", o)
+            ELSE IF r.key # Key(o) THEN Bad("out.key", Key(o))
             ELSE IF r.val # Value(o) THEN Bad("out.value", Value(o))
             ELSE IF p.ok # r.parsed.ok THEN Bad("out.parse.error", p.ok)
             ELSE IF p.ok /\ p.o # r.parsed.o THEN Bad("out.parse.result", p.o)
-            ELSE IF Representable(o) /\ ~(r.parsed.ok /\ r.parsed.o = o) THEN Bad("out.roundtrip", o)
             ELSE Good
     ELSE IF r.k = "parse" THEN      \* arbitrary key/value texts fed to the real parser
         LET p == Parse(r.key, r.val)
